@@ -40,6 +40,17 @@ func (vc *VC) blockBound(b *ssa.BasicBlock) {
 			bs = append(bs, pb)
 		}
 	}
+	if _, isHeader := vc.loops[b]; isHeader && len(bs) > 0 {
+		// a loop header is also reached from its own body: objects allocated in earlier iterations
+		// exist, so the bound is a fresh value not below the bound on entry to the loop
+		vc.allocN++
+		j := vc.declare(sanitizeBound(vc.allocN), SInt)
+		for _, x := range bs {
+			vc.fact("true", le(x, j))
+		}
+		vc.bound = j
+		return
+	}
 	switch len(bs) {
 	case 0:
 		vc.bound = "$A0"
